@@ -19,7 +19,7 @@ func writeAct(rng *rand.Rand, nkeys int) TAct {
 func baseTree(g GenCtx) (*Tree, *rand.Rand) {
 	rng := g.Rng
 	sc := &Tree{Prop: g.Prop, Bufsiz: 100}
-	sc.Sim = SimCfg{Strategy: randStrategy(rng, libGoroutines), NewTimers: rng.Intn(4) == 0, PermuteMaps: true, MaxSteps: 600000, EstSteps: 4000}
+	sc.Sim = SimCfg{Strategy: randStrategy(rng, libGoroutines), NewTimers: rng.Intn(4) == 0, PermuteMaps: true, MaxSteps: 120000, EstSteps: 4000}
 	sc.Sim.Strategy.StallMaxMs = 1500
 	sc.LogYield = rng.Intn(4) == 0
 	return sc, rng
